@@ -80,7 +80,14 @@ def run(prog: Program, ctx: Ctx) -> None:  # noqa: PLR0912,PLR0915
         it.vfs = vfs
 
         # (_is_pkg_style_namespace is evaluated on the file's text: the vfs serves read_text)
-        return Obj(fcls, {"search_paths": [PP(p) for p in search_paths], "_paths_contents": {}, "_always_scan_for": {}}, label="finder")
+        # built by its own constructor (over the virtual file system: no .pth files unless the layout has some), so that the finder's private
+        # state is whatever the current source calls it
+        it.steps = 0
+        try:
+            return it._construct(fcls, [[PP(p) for p in search_paths]], {})
+        except Raised as r:
+            ctx.ob("R2", f"constructor|{search_paths}|{r.exc}", False, f"ModuleFinder({search_paths}) raises {r.exc} over a layout without .pth files", where(fp))
+            return Obj(fcls, {"search_paths": [PP(p) for p in search_paths], "_paths_contents": {}, "_always_scan_for": {}}, label="finder")
 
     def describe(pkg) -> str:
         if isinstance(pkg, Obj) and pkg.cls is not None:
@@ -197,7 +204,6 @@ def run(prog: Program, ctx: Ctx) -> None:  # noqa: PLR0912,PLR0915
         results = {}
         for o in ORDERS:
             fo = finder(["/s", "/p1", "/p2"], vfs, o)
-            fo.attrs["_always_scan_for"] = {"pkg": [], "ns": []}
             module = Obj(None, {"filepath": modpath, "name": "pkg" if not isinstance(modpath, list) else "ns"}, label="module")
             it.steps = 0
             try:
@@ -246,7 +252,6 @@ def run(prog: Program, ctx: Ctx) -> None:  # noqa: PLR0912,PLR0915
     last_by_order = {}
     for o in ORDERS:
         fo = finder(["/s"], _vfs(files_sp), o)
-        fo.attrs["_always_scan_for"] = {"pkg": []}
         it.steps = 0
         try:
             res = it.call(sm, fo, Obj(None, {"filepath": PP("/s/pkg/__init__.py"), "name": "pkg"}, label="module"))
@@ -334,8 +339,23 @@ def run(prog: Program, ctx: Ctx) -> None:  # noqa: PLR0912,PLR0915
             if not clean:
                 # stored and used for membership/truthiness only, or sorted by every order-sensitive consumer
                 how, clean = _uses_are_clean(prog, f, c)
-            ctx.ob("R1", key(f, f"listing:{norm(c, 50)}"), clean, f"`{norm(c, 50)}`: {how}" if clean else
-                   f"`{norm(c, 50)}` feeds an order-sensitive consumer in listing order ({how})", where(f, c))
+            if clean:
+                ctx.ob("R1", key(f, f"listing:{norm(c, 50)}"), True, f"`{norm(c, 50)}`: {how}", where(f, c))
+            else:
+                # The syntactic trace from a listing to a sort is a sufficient condition only (it knows `sorted(...)` around the use, membership tests,
+                # consumers that sort with a total key).  Where it cannot follow the code - behaviour-preserving rewrites did that: a generator
+                # expression inside sorted(), `found = [*a, *b]; found.sort(key=...)` - the verdict is left to the order rows above, which run
+                # find_package / submodules / the .pth scan under three listing orders; reported here only when one of those rows fails too.
+                order_rows_ok = all(o.ok for o in ctx.obligations if o.rule == "R1" and o.key.startswith("order|"))
+                if "covered" not in locals():
+                    from sa.callgraph import CallGraph as _CG
+
+                    entry = [m_ for n_ in ("find_package", "submodules", "__init__") for m_ in fcls.methods.get(n_, [])]
+                    covered = set(_CG(prog).reachable(entry))  # what the order rows execute: everything the three public entry points reach
+                if order_rows_ok and f.qualname in covered and f.cls is fcls:  # (module-level .pth / editable-install helpers are not exercised by the rows)
+                    ctx.note(f"R1: `{norm(c, 50)}` in {f.name}: no sort found on the way to the consumers by the syntactic trace ({how}); the listing-order rows hold")
+                else:
+                    ctx.ob("R1", key(f, f"listing:{norm(c, 50)}"), False, f"`{norm(c, 50)}` feeds an order-sensitive consumer in listing order ({how})", where(f, c))
     ctx.expect_min("R1", n_src, 3)
 
     # ------------------------------------------------------------------ R4 classification
